@@ -70,6 +70,7 @@ int main(int argc, char** argv) {
   g_property = "C03";
   parse_args(argc, argv);
   install_handlers();
+  engine_warmup();
   use_caching_alloc();
   setvbuf(stdout, 0, _IOLBF, 0);
   char err[512] = "";
